@@ -1,4 +1,4 @@
-"""C14 / C03 / C05: SemanticAnalyzer.infer_expr_type — the static rules of `m.write(...)` and of the leaf expressions.
+"""C14 / C03 / C05: SemanticAnalyzer.infer_expr_type — the static rules of `m.write(...)` (leaves, dispatch and helpers: contracts.c14d).
 
 WriteExpr   an error is recorded for each of the following, and for nothing else:
               * set= / reset= given and the set (reset) argument is not a signal (one error each);  when= mixed with set= / reset=
@@ -13,9 +13,7 @@ WriteExpr   an error is recorded for each of the following, and for nothing else
                 WARNING when the cell was declared without a type
             otherwise the result is the cell's own type, the value's type and the enable's type are attached to the expression.
 Scope chains of depth <= 2 (bounded shape, stated); every scalar symbolic.
-
-Leaves      NumberLiteral -> int with its value; IdentifierExpr -> the symbol's type, an undefined name is ONE error (and int);
-            ReadExpr -> the cell's type, ONE error for an undefined name / a name that is not a memory; UnaryOp -> the operand's type."""
+"""
 from __future__ import annotations
 
 import z3
@@ -248,204 +246,3 @@ for _kind, _vcls in [(k, v) for k in ("plain", "when", "latch", "mixed") for v i
     CONTRACTS[-1].value_classes = (_vcls,)
     CONTRACTS[-1].kind = _kind
 CONTRACTS += [error_c, warning_c, get_type, implicit_c, mk_info_c, lookup_c, help_c]
-
-
-# =================================================================================================
-# Leaves and dispatch of infer_expr_type (one scenario per expression class).
-# =================================================================================================
-LEAF = {}
-_SYM_ANY = ty.TObj("Symbol", only=("Symbol",), ftypes=(("symbol_type", ty.Str), ("value_type", _VT),
-                                                      ("properties", ty.TOpt(ty.TObjMap(ty.Str, ty.TObj("Symbol", only=("Symbol",), ftypes=(("value_type", _VT),)))))))
-
-
-def _leaf_reset(a):
-    LEAF.clear()
-    return _reset(a)
-
-
-def _leaf_lookup(ex, a):
-    LEAF.setdefault("looked_up", []).append(a.name)
-    return ghost(ex.args_ns.expr, "symbol", ty.TOpt(_SYM_ANY))
-
-
-leaf_lookup = Contract(qualname="dsl_compiler/src/semantic/symbol_table.py::SymbolTable.lookup", params={"self": _OPQ, "name": _OPQ}, effect=_leaf_lookup, verify=False,
-                       note="proved in contracts.c14: innermost definition of the name, None when undefined")
-
-
-def _helper(kind, t=_VT):
-    def eff(ex, a):
-        LEAF.setdefault(kind, []).append(a)
-        return ghost(ex.args_ns.expr, "result_of_" + kind, t)
-    return eff
-
-
-def _resolve_eff(ex, a):
-    LEAF.setdefault("resolved", []).append((a.type_ref, a.node))
-    return ghost(ex.args_ns.expr, "resolved", ty.TOpt(ty.Str))
-
-
-def _reserved_eff(ex, a):
-    LEAF.setdefault("reserved_reported", []).append(a.signal_name)
-    return None
-
-
-def _validate_eff(ex, a):
-    LEAF.setdefault("validated", []).append(a.signal_name)
-    return ghost(ex.args_ns.expr, "valid", ty.Bool)
-
-
-_P1 = {"self": _OPQ, "expr": _OPQ}
-_LEAF_USES = {**_USES, "SymbolTable.lookup": leaf_lookup,
-              "SemanticAnalyzer.infer_binary_op_type": Contract(qualname=AN + "infer_binary_op_type", params=_P1, effect=_helper("binary"), verify=False, note="proved in contracts.c14b"),
-              "SemanticAnalyzer._infer_output_spec_type": Contract(qualname=AN + "_infer_output_spec_type", params=_P1, effect=_helper("output_spec"), verify=False, note="type of `cond : value` (S3 scope, bounded)"),
-              "SemanticAnalyzer._infer_bundle_literal_type": Contract(qualname=AN + "_infer_bundle_literal_type", params=_P1, effect=_helper("bundle_literal"), verify=False, note="proved in contracts.c14"),
-              "SemanticAnalyzer._infer_bundle_select_type": Contract(qualname=AN + "_infer_bundle_select_type", params=_P1, effect=_helper("bundle_select"), verify=False, note="proved in contracts.c14b"),
-              "SemanticAnalyzer._infer_bundle_any_type": Contract(qualname=AN + "_infer_bundle_any_type", params=_P1, effect=_helper("bundle_any"), verify=False, note="type of any(b) (S3 scope, bounded)"),
-              "SemanticAnalyzer._infer_bundle_all_type": Contract(qualname=AN + "_infer_bundle_all_type", params=_P1, effect=_helper("bundle_all"), verify=False, note="type of all(b) (S3 scope, bounded)"),
-              "SemanticAnalyzer._infer_entity_output_type": Contract(qualname=AN + "_infer_entity_output_type", params=_P1, effect=_helper("entity_output"), verify=False, note="type of entity.output (S3 scope, bounded)"),
-              "SemanticAnalyzer._infer_builtin_call_type": Contract(qualname=AN + "_infer_builtin_call_type", params=_P1, effect=_helper("builtin", ty.TOpt(_VT)), verify=False,
-                                                                    note="the type of place / input / memory calls, None for any other name"),
-              "SemanticAnalyzer._get_function_return_type": Contract(qualname=AN + "_get_function_return_type", params={"self": _OPQ, "function_name": _OPQ}, effect=_helper("return_type"), verify=False,
-                                                                     note="type of the function's return expression (C15: S3 scope, bounded)"),
-              "SemanticAnalyzer.visit_CallExpr": Contract(qualname=AN + "visit_CallExpr", params={"self": _OPQ, "node": _OPQ}, effect=lambda ex, a: LEAF.setdefault("call_checked", []).append(a.node), verify=False,
-                                                          note="proved in contracts.c14b: the static rules of a call"),
-              "SemanticAnalyzer.resolve_signal_type_access": Contract(qualname=AN + "resolve_signal_type_access", params={"self": _OPQ, "type_ref": _OPQ, "node": _OPQ}, effect=_resolve_eff, verify=False,
-                                                                      note="the type name written, or the type of the signal named by `x.type`; None (reported) when that cannot be resolved"),
-              "SemanticAnalyzer._emit_reserved_signal_diagnostic": Contract(qualname=AN + "_emit_reserved_signal_diagnostic", params={"self": _OPQ, "signal_name": _OPQ, "node": _OPQ, "context": _OPQ},
-                                                                            effect=_reserved_eff, verify=False, note="proved in contracts.c14b: signal-W is an ERROR"),
-              "SemanticAnalyzer.validate_signal_type_with_error": Contract(qualname=AN + "validate_signal_type_with_error", params={"self": _OPQ, "signal_name": _OPQ, "node": _OPQ, "context": _OPQ},
-                                                                           defaults={"context": ""}, effect=_validate_eff, verify=False, note="proved in contracts.c14b: an unknown name is an ERROR")}
-_LEAF_DYN = {"self": {**_DYN["self"], "RESERVED_SIGNAL_RULES": ty.TConcrete({"signal-W": ("error", "reserved")})}}
-
-
-def _fresh_signal(res):
-    return isa(res, "SignalValue") is True and isinstance(res.signal_type, SObj) and res.signal_type.name == IMPLICIT
-
-
-def _number_post(a, res):
-    return _b(isa(res, "IntValue") is True and res.value is a.expr.value and not ERR)
-
-
-def _text_post(a, res):
-    return _b(isa(res, "IntValue") is True and res.value is None and not ERR)
-
-
-def _ident_post(a, res):
-    sym = a.expr._fields.get("@symbol")
-    if LEAF.get("looked_up") != [a.expr.name] and not (len(LEAF.get("looked_up", [])) == 1 and LEAF["looked_up"][0] is a.expr.name):
-        return False
-    if sym is None:
-        return _b(len(ERR) == 1 and isa(res, "IntValue") is True)
-    return _b(not ERR and res is sym.value_type)
-
-
-def _read_post(a, res):
-    sym = a.expr._fields.get("@symbol")
-    if not (len(LEAF.get("looked_up", [])) == 1 and LEAF["looked_up"][0] is a.expr.memory_name):
-        return False
-    if sym is None:
-        return _b(len(ERR) == 1 and _fresh_signal(res))
-    return And(_b(res is sym.value_type), len(ERR) == ops.ite(sym.symbol_type == "memory", 0, 1))
-
-
-def _unary_post(a, res):
-    return _b(len(TYPED) == 1 and TYPED[0] is a.expr.expr and res is a.expr.expr._fields.get("@type") and not ERR)
-
-
-def _typed_literal_post(what):
-    """projection `e | T` and typed literal (T, e): the inner expression is analysed; the type name is resolved; an unresolvable name gives a fresh type
-    (reported by the resolver); the reserved signal is reported; the name is validated; result: a signal of exactly the resolved type"""
-    def post(a, res):
-        e = a.expr
-        inner = e.expr if what == "projection" else e.value
-        ref = e.target_type if what == "projection" else e.signal_type
-        if not (len(TYPED) == 1 and TYPED[0] is inner):
-            return False
-        if what == "literal" and ref is not None and not LEAF.get("resolved"):
-            # an empty type name counts as no type
-            inner_num = isa(inner, "NumberLiteral") is True
-            return And(z3.Length(ref) == 0, _b((isa(res, "IntValue") is True and res.value is inner.value) if inner_num else (_fresh_signal(res) and res.count_expr is inner)), _b(not ERR))
-        if what == "literal" and ref is None:
-            # untyped literal: a number stays an integer (with its value), anything else gets a fresh type and remembers the expression
-            if isa(inner, "NumberLiteral") is True:
-                return _b(isa(res, "IntValue") is True and res.value is inner.value and not LEAF.get("resolved") and not ERR)
-            return _b(_fresh_signal(res) and res.count_expr is inner and not LEAF.get("resolved") and not ERR)
-        rs = LEAF.get("resolved", [])
-        if not (len(rs) == 1 and rs[0][0] is ref and rs[0][1] is e):
-            return False
-        nonempty = z3.Length(ref) > 0 if what == "literal" else z3.BoolVal(True)
-        name = e._fields.get("@resolved")
-        if name is None:
-            return And(nonempty, _b(_fresh_signal(res) and not LEAF.get("validated") and not ERR))
-        reported = LEAF.get("reserved_reported", [])
-        ok_reserved = And(name == "signal-W", _b(len(reported) == 1 and reported[0] is name)) if reported else Not(name == "signal-W")
-        validated = LEAF.get("validated", [])
-        return And(nonempty, ok_reserved, _b(len(validated) == 1 and validated[0] is name and isa(res, "SignalValue") is True and isinstance(res.signal_type, SObj) and res.signal_type.name is name
-                                   and (what == "projection" or res.count_expr is inner) and not ERR))
-    return post
-
-
-def _call_post(a, res):
-    e = a.expr
-    if not (len(LEAF.get("call_checked", [])) == 1 and LEAF["call_checked"][0] is e):
-        return False   # the static rules of the call are always checked first
-    b = e._fields.get("@result_of_builtin")
-    if b is not None:
-        return _b(res is b and not LEAF.get("return_type"))
-    sym = e._fields.get("@symbol")
-    if LEAF.get("return_type"):
-        return And(_b(sym is not None and res is e._fields.get("@result_of_return_type") and LEAF["return_type"][0].function_name is e.name), sym.symbol_type == "function" if sym is not None else False)
-    return And(_b(_fresh_signal(res)), Not(sym.symbol_type == "function") if sym is not None else True)
-
-
-def _prop_post(a, res):
-    e = a.expr
-    sym = e._fields.get("@symbol")
-    if not (len(LEAF.get("looked_up", [])) == 1 and LEAF["looked_up"][0] is e.object_name):
-        return False
-    if sym is None:
-        return _b(len(ERR) == 1 and isa(res, "IntValue") is True)
-    entity, module = sym.symbol_type == "entity", sym.symbol_type == "module"
-    if _fresh_signal(res):
-        return And(entity, _b(not ERR))
-    props = sym._fields.get("properties")
-    members = [r for _k, r in props.lookups] if props is not None else []
-    if members and res is members[-1]._fields.get("value_type"):
-        # a module member: the type recorded for that function
-        return And(Not(entity), module, _b(not ERR and len(members) == 1 and props.lookups[0][0] is e.property_name))
-    return And(Not(entity), _b(isa(res, "IntValue") is True and len(ERR) == 1))
-
-
-def _dispatch_post(kind):
-    def post(a, res):
-        calls = LEAF.get(kind, [])
-        return _b(len(calls) == 1 and calls[0].expr is a.expr and res is a.expr._fields.get("@result_of_" + kind) and not ERR)
-    return post
-
-
-def _leaf(cls, post, what, ftypes=(), props=("C14",), min_obl=1, note=None):
-    return Contract(qualname=AN + "infer_expr_type", params={"self": _SELF, "expr": ty.TObj(cls, only=(cls,), ftypes=tuple(ftypes))},
-                    requires=[("(reset capture)", _leaf_reset), ("the analyser has a current scope", lambda a: a.self.current_scope is not None)],
-                    ensures=[(what, post)], uses=_LEAF_USES, dynamic_types=_LEAF_DYN, properties=props, min_obligations=min_obl, no_replay=True, note=note or cls)
-
-
-_ID = ty.TObj("Expr", only=("IdentifierExpr",))
-CONTRACTS += [
-    _leaf("NumberLiteral", _number_post, "an integer with the literal's value", (("value", ty.Int),), ("C14", "C11")),
-    _leaf("StringLiteral", _text_post, "an integer without a compile-time value"),
-    _leaf("DictLiteral", _text_post, "an integer without a compile-time value"),
-    _leaf("IdentifierExpr", _ident_post, "the symbol's type; an undefined name is ONE error", (("name", ty.Str),), min_obl=2),
-    _leaf("ReadExpr", _read_post, "the cell's type; ONE error for an undefined name or a name that is not a memory", (("memory_name", ty.Str),), ("C14", "C03"), 2),
-    _leaf("UnaryOp", _unary_post, "the operand's type (the operand is analysed)", (("expr", _ID),), ("C14", "C01")),
-    _leaf("ProjectionExpr", _typed_literal_post("projection"), "source analysed; a signal of exactly the resolved target type; reserved and unknown names reported",
-          (("expr", _ID), ("target_type", ty.Str)), ("C14", "C01", "C13"), 3),
-    _leaf("SignalLiteral", _typed_literal_post("literal"), "value analysed; typed: a signal of exactly the resolved type (reserved / unknown names reported); untyped number: an integer with its value; "
-          "untyped expression: a fresh type", (("value", ty.TObj("Expr", only=("IdentifierExpr", "NumberLiteral"), ftypes=(("value", ty.Int),))), ("signal_type", ty.TOpt(ty.Str))), ("C14", "C01", "C13"), 4),
-    _leaf("CallExpr", _call_post, "the call's static rules are checked; builtin: its type; a function: its return type; anything else: a fresh signal type", (("name", ty.Str),), ("C14", "C15"), 3),
-    _leaf("PropertyAccessExpr", _prop_post, "undefined object: ONE error; an entity's property: a fresh signal type; a module's function: its type, an absent member ONE error; "
-          "any other object: ONE error", (("object_name", ty.Str), ("property_name", ty.Str)), ("C14", "C06"), 4),
-]
-for _cls, _kind in (("BinaryOp", "binary"), ("OutputSpecExpr", "output_spec"), ("BundleLiteral", "bundle_literal"), ("BundleSelectExpr", "bundle_select"), ("BundleAnyExpr", "bundle_any"),
-                    ("BundleAllExpr", "bundle_all"), ("EntityOutputExpr", "entity_output")):
-    CONTRACTS.append(_leaf(_cls, _dispatch_post(_kind), f"exactly what the {_kind} rule says for this expression (called once, on it)", (), ("C14", "C01", "C02")))
-CONTRACTS += [leaf_lookup] + [v for v in _LEAF_USES.values() if isinstance(v, Contract) and v.qualname.startswith(AN) and v not in CONTRACTS]
